@@ -372,10 +372,6 @@ func VerifyFunction(p *Program, cs *Contracts, fn *ssa.Function, con *Contract) 
 	for _, w := range con.Witness {
 		perRet(func(env *specEnv) Term { env.eval(w.Expr); return "true" }) // introduces witness terms and their (listed) axioms
 	}
-	for k, c := range con.RepInvs {
-		g := perRet(func(env *specEnv) Term { return env.evalBool(c.Expr) })
-		vc.oblige(fr.oblName("post.repinv."+clauseID(c, k)), "post", "true", g, "representation invariant re-established: "+c.Src)
-	}
 	for k, c := range con.Ensures {
 		id := clauseID(c, k)
 		var split *FindingSplit
@@ -387,6 +383,7 @@ func VerifyFunction(p *Program, cs *Contracts, fn *ssa.Function, con *Contract) 
 		if split == nil {
 			g := perRet(func(env *specEnv) Term { return env.evalBool(c.Expr) })
 			vc.oblige(fr.oblName("post."+id), "post", "true", g, c.Src)
+			vc.assumeLemma(g) // clauses are proved in order; later ones may use earlier ones as lemmas
 			continue
 		}
 		// known finding: the clause is split on the discriminator (evaluated in the entry state)
@@ -395,6 +392,11 @@ func VerifyFunction(p *Program, cs *Contracts, fn *ssa.Function, con *Contract) 
 		g := perRet(func(env *specEnv) Term { return env.evalBool(c.Expr) })
 		vc.oblige(fr.oblName("post."+id+".outside"), "post", not(d), g, c.Src+"   [outside known finding "+split.ID+"]")
 		vc.obls = append(vc.obls, &Obligation{Name: fr.oblName("post." + id + ".inside"), Kind: "finding", NAsserts: len(vc.asserts), NDecls: len(vc.decls), Guard: and(final.pc, d), Goal: g, Src: c.Src, Finding: split.ID})
+	}
+	for k, c := range con.RepInvs {
+		g := perRet(func(env *specEnv) Term { return env.evalBool(c.Expr) })
+		vc.oblige(fr.oblName("post.repinv."+clauseID(c, k)), "post", "true", g, "representation invariant re-established: "+c.Src)
+		vc.assumeLemma(g) // later obligations of this function may use it as a lemma (its own failure is reported above)
 	}
 	// frame
 	if con.HasMod && !con.ModAll {
